@@ -12,7 +12,7 @@ ENGINES = [
     {
         "name": "enum",
         "path": "vf/engine/runner.py vf/ref/",
-        "serves_properties": ["C01", "C02", "C03", "C15", "C17"],
+        "serves_properties": ["C01", "C02", "C03", "C15", "C17", "C18"],
         "kind_free_text": "bounded-exhaustive enumerator for sequential code: Cartesian products of boundary alphabets, exhaustive short "
         "byte spaces, mutation neighbourhoods and complete fault/lifecycle products, every case run on the real code and compared with an "
         "independent reference (ISO 14229-1 layout table vf/ref/iso14229.py, lifecycle model vf/ref/c15_model.py); 16-way process pool",
@@ -202,6 +202,21 @@ CHECKS = [
         "log' warning, run_meta completed, shutdown terminates.",
         "note": "Trusted: sqlite3, the FIFO model of aiosqlite's worker, the reference state rules, vf/ref/iso14229.py generators. An exchange in flight at "
         "the moment of cancellation may or may not be recorded. Not covered: sqlite OperationalError retry loop, more than one cancellation.",
+    },    {
+        "id": "C18",
+        "engine": "enum",
+        "level": "exploration",
+        "technique": "bounded-exhaustive enumeration of (command, option, subset of {CLI, env, gallia.toml}, value, spelling) on gallia's real create_parser/parse_typed_args, compared with a reference precedence function over declarations re-read from the class sources; plus JSON / META.json / database re-load and template key checks",
+        "text": "For all 34 leaf commands and all 851 options the parser is built by gallia's own create_parser() (tree pruned to one command, real gallia.toml via "
+        "GALLIA_CONFIG, real environment). Every subset of the sources an option is declared to have is exercised with pairwise different valid values from "
+        "per-kind alphabets (ints base 2/8/10/16, hex bytes, ranges, 2-D ranges, enums by name/value/hex, literals, URIs, paths, floats, --x/--no-x, const "
+        "form, short flag, '=' form, multi-token lists); one or two invalid values per source must be rejected with a message naming the source; every "
+        "accepted config is dumped and reloaded through CONFIG_TYPE(**json), through Rerunner.main() via META.json and through a real aiosqlite run_meta "
+        "row; --template must list every registry key and every declared key under its section and honour a value set there. Quick: 47 k evaluations, "
+        "thorough: 0.2 M (all value rotations, all spellings of the winning source, all option pairs x source pairs per command).",
+        "note": "Trusted: pydantic, argparse, tomllib; pydantic-level default/required/field order; the alphabet tables; declarations are read via AST + "
+        "re-evaluation of the Field(...) expressions. Not covered: 'script vecu db' (no acceptable command line), oem (single valid value), dict options, "
+        "env spellings of list-of-tuple options, hidden options.",
     },
 ]
 
